@@ -54,7 +54,7 @@ func main() {
 	case "cases":
 		prop, tier := os.Args[2], os.Args[3]
 		seed, _ := strconv.ParseUint(os.Args[4], 10, 64)
-		c := &Ctx{Prop: prop, Tier: tier, Seed: seed, R: NewRng(seed), Kinds: map[string]int{}, Repo: "/repo"}
+		c := &Ctx{Prop: prop, Tier: tier, Seed: seed, R: NewRng(seed), Kinds: map[string]int{}, Repo: repoDir()}
 		if len(os.Args) > 5 {
 			c.Tmp = os.Args[5]
 		}
@@ -86,4 +86,11 @@ func main() {
 		fmt.Fprintln(os.Stderr, "unknown subcommand")
 		os.Exit(2)
 	}
+}
+
+func repoDir() string {
+	if d := os.Getenv("VERIF_REPO"); d != "" {
+		return d
+	}
+	return "/repo"
 }
